@@ -1,7 +1,7 @@
 (* Pinned statements of C08 (generated once by tools/mkpins.py from coq/props/C08.v, then committed). *)
 From DV Require Import Model.Base Model.NameCheck Model.Parser Model.Header Model.Readers Model.Uncompress
   Model.Mutate Model.Compress Model.Renamer Spec.PacketSpec Spec.RecordSpec Spec.PlainSpec Proofs.Hoare Proofs.HeaderBits Proofs.InsertLemmas Proofs.EdnsPlain Proofs.WalkSkip
-  Proofs.PlainWf Proofs.ViewAfter Proofs.InsertSpec Proofs.HeaderInv Proofs.CursorHist Proofs.DecompressFirst Proofs.FreshHist Proofs.DeleteInv Proofs.SetNameInv Proofs.WalkInv Proofs.RenameCursor Spec.NameSpec Proofs.RenameSpec Proofs.RenameContent Proofs.WalkFresh Proofs.RenameAny Proofs.RenameTotal props.C08.
+  Proofs.PlainWf Proofs.ViewAfter Proofs.InsertSpec Proofs.HeaderInv Proofs.CursorHist Proofs.DecompressFirst Proofs.FreshHist Proofs.DeleteInv Proofs.SetNameInv Proofs.WalkInv Proofs.RenameCursor Spec.NameSpec Proofs.RenameSpec Proofs.RenameContent Proofs.WalkFresh Proofs.RenameAny Proofs.RenameTotal Model.Gen Proofs.NameText Proofs.ReadersLabels Proofs.QueryFresh props.C08.
 Check (C08_decompression_keeps_edns_summary : forall p v q v',
   bytes_ok p -> parse p = Ok v -> uncompress p = Ok q -> parse q = Ok v' ->
   pp_edns_count v' = pp_edns_count v /\ pp_ext_rcode v' = pp_ext_rcode v /\ pp_edns_version v' = pp_edns_version v /\
@@ -133,3 +133,11 @@ Check (C08_histories_with_rename_total : forall p v it ops, bytes_ok p -> parse 
   ok_along4_tol ops (v, it) ->
   exists s', run_hops4_tol ops (v, it) = (s', Ok tt) /\ objst (fst s') /\ snd s' = it /\ is_response (pp_packet (fst s'))).
 Print Assumptions C08_histories_with_rename_total.
+Check (C08_query_is_fresh_parse : forall tid name qt v, (tid < 65536)%N -> (qt < 65536)%N -> gen_query tid name qt CLASS_IN = Ok v ->
+  exists ls f,
+    Forall label_ok ls /\ (name = dotted ls \/ name = dots ls \/ (name = [46%N] /\ ls = [])) /\
+    pp_packet v = query_header tid ++ wire_of_labels ls ++ be16_bytes qt ++ be16_bytes CLASS_IN /\
+    bytes_ok (pp_packet v) /\ parse (pp_packet v) = Ok f /\ view_of_parse v f (pp_packet v) /\
+    pp_maybe_compressed v = false /\ uncompress (pp_packet v) = Ok (pp_packet v) /\
+    reading (pp_packet v) ls qt [] [] []).
+Print Assumptions C08_query_is_fresh_parse.
